@@ -382,6 +382,14 @@ var c01HeaderSets = [][]wire.HeaderLine{
 	{{"Accept", "*/*"}, {"User-Agent", "verif/1.0"}, {"Authorization", "Basic Zm9vOmJhcg=="}},
 	{{"Accept-Encoding", "br"}, {"If-None-Match", "\"abc\""}},
 	{{"Expect", "100-continue"}},
+	// header lines are a list, not a set: repeated values, non-adjacent repeats, values that
+	// differ in case only, a list-valued line next to a single-valued one
+	{{"X-Item", "1"}, {"X-Item", "1"}},
+	{{"X-Seq", "a"}, {"X-Seq", "b"}, {"X-Seq", "a"}},
+	{{"X-Case", "Abc"}, {"X-Case", "abc"}},
+	{{"X-List", "a, b"}, {"X-List", "a"}},
+	{{"Cookie", "a=1"}, {"Cookie", "a=1"}},
+	{{"Via", "1.1 edge"}, {"Via", "1.1 edge"}, {"Forwarded", "for=203.0.113.7"}},
 }
 
 var c01RespHeaderSets = [][]wire.HeaderLine{
@@ -391,6 +399,15 @@ var c01RespHeaderSets = [][]wire.HeaderLine{
 	{{"Cache-Control", "no-store"}, {"ETag", "\"v1\""}, {"Vary", "Accept-Encoding"}},
 	{{"X-Long", strings.Repeat("r", 7*1024)}},
 	{{"Server", "origin/1"}, {"X-Request-ID", "from-backend"}},
+	// header lines are a list, not a set (see the request side)
+	{{"X-Item", "1"}, {"X-Item", "1"}},
+	{{"X-Seq", "a"}, {"X-Seq", "b"}, {"X-Seq", "a"}},
+	{{"Warning", "199 - \"stale\""}, {"Warning", "199 - \"stale\""}},
+	{{"Set-Cookie", "a=1"}, {"Set-Cookie", "a=1"}},
+	{{"X-Case", "Abc"}, {"X-Case", "abc"}},
+	{{"X-List", "a, b"}, {"X-List", "a"}},
+	{{"Vary", "Accept"}, {"Vary", "Accept-Encoding"}, {"Link", "</a>; rel=preload"}, {"Link", "</a>; rel=preload"}},
+	{{"Via", "1.1 origin-cache"}, {"Via", "1.1 origin-cache"}, {"Age", "0"}},
 }
 
 func TestVerifC01(t *testing.T) {
